@@ -47,6 +47,9 @@ func GetLengthFromASN(b []byte) int {
 
 // GetNumberBytesInLengthHeader returns the number of bytes in the ASn1 header that indicate the length.
 func GetNumberBytesInLengthHeader(b []byte) int {
+	if len(b) < 2 {
+		return 1
+	}
 	if int(b[1]) <= 127 {
 		return 1
 	}
